@@ -548,26 +548,30 @@ def gen_cases(tier, seed):
     # quick: one case per (scenario, side) - the 3 baseline runs are cached per worker and scenario, so fewer, larger cases
     # mean fewer baseline runs; thorough: blocks (the 'each' specs expand to many masks)
     block = 100 if tier == "quick" else 14
+    reps = 1 if tier == "quick" else 3          # thorough: every (scenario, side) with 3 (callable kind, exception class) draws
     for name in names:
         for side in ("acc", "req", "both"):
             specs = _mask_specs(tier, seed, name, side)
             if name in RACE_PROBE:
                 specs = specs[:2]
-            r = rng_for(seed, PID, "kinds", name, side)
-            for bi in range(0, len(specs), block):
-                cases.append({"part": "diff", "scenario": name, "side": side, "seed": seed, "specs": specs[bi:bi + block],
-                              "kind": r.choice(KINDS_NAMED), "exc": r.choice(EXC_NAMES)})
+            for rep in range(reps if name not in RACE_PROBE else 1):
+                r = rng_for(seed, PID, "kinds", name, side, rep)
+                for bi in range(0, len(specs), block):
+                    cases.append({"part": "diff", "scenario": name, "side": side, "seed": seed, "specs": specs[bi:bi + block],
+                                  "kind": r.choice(KINDS_NAMED), "exc": r.choice(EXC_NAMES)})
             # legitimate callables without __name__ (functools.partial / callable object) get their own small blocks, so
             # that their keys stay separable
             if name not in RACE_PROBE:
+                r = rng_for(seed, PID, "unnamed-kinds", name, side)
                 unnamed.append({"part": "diff", "scenario": name, "side": side, "seed": seed,
                                 "specs": [{"t": "event", "ev": ev} for ev in r.sample(NOTIF, 1 if tier == "quick" else 8)],
                                 "kind": r.choice(KINDS_UNNAMED), "exc": r.choice(EXC_NAMES)})
     cases += intervention_cases(tier, seed)
     if tier == "quick":
         unnamed = rng_for(seed, PID, "unnamed").sample(unnamed, 8)     # one event each: slow on a tree where they fail
-    # last: on the unfixed tree these leave idle DUL threads behind in the worker (they run after everything else)
-    return cases + unnamed
+    # first: on a tree where they fail each pair is mostly waiting for timeouts (cheap in CPU, long in wall time), so they
+    # should overlap with everything else instead of forming the tail of the run
+    return unnamed + cases
 
 
 def run_case(case):
@@ -636,8 +640,8 @@ def extra_evidence(tier, results):
                     (r.get("sample") or {}).get("side"), (r.get("sample") or {}).get("kind")) for r in results.values()),
                   key=lambda x: -x[0])[:6]
     return {"slowest_cases": slow, "total_case_wall_s": int(sum(r.get("wall", 0) for r in results.values())),
-            "distinct_nontrivial": len(pairs) + len(iv), "scenarios_deterministic": len(det - nondet),
-            "scenarios_used": sorted(det - nondet), "scenarios_skipped_nondeterministic": sorted(nondet),
+            "distinct_nontrivial": len(pairs) + len(iv), "scenarios_deterministic": len(det),
+            "scenarios_used": sorted(det), "scenarios_with_a_nondeterministic_baseline_block": sorted(nondet),
             "events_raised_distinct": len({e.split("/")[1] for e in events}),
             "side_events_raised": sorted(events), "intervention_distinct": len(iv)}
 
